@@ -92,7 +92,7 @@ func runC03(c *harness.Ctx) {
 		pauseMid := []time.Duration{0, 0, time.Second, 29 * time.Second, 31 * time.Second}[t.Draw(name+".pause", 5)]
 
 		c.S.Go(fmt.Sprintf("s%d/accept", i), func() {
-			time.Sleep(startOff)
+			c.S.Sleep(startOff)
 			p.acceptAt = c.S.Now()
 			conn, err := factory.WrapConn(l.B)
 			p.retAt, p.returned, p.retErr = c.S.Now(), true, err
@@ -102,10 +102,10 @@ func runC03(c *harness.Ctx) {
 			}
 		})
 		c.S.Go(name+"/probe", func() {
-			time.Sleep(startOff)
+			c.S.Sleep(startOff)
 			if p.disconnectAfter > 0 {
 				c.S.Go(name+"/hangup", func() {
-					time.Sleep(p.disconnectAfter)
+					c.S.Sleep(p.disconnectAfter)
 					l.A.Close()
 				})
 			}
@@ -202,7 +202,7 @@ func runC03(c *harness.Ctx) {
 					return
 				}
 				if cut < len(msg) {
-					time.Sleep(pauseMid)
+					c.S.Sleep(pauseMid)
 					if !p.write(c, msg[cut:]) {
 						return
 					}
@@ -218,7 +218,7 @@ func runC03(c *harness.Ctx) {
 					if !p.write(c, junk) {
 						return
 					}
-					time.Sleep(time.Duration(1+arg1%3000) * time.Millisecond)
+					c.S.Sleep(time.Duration(1+arg1%3000) * time.Millisecond)
 				}
 				c.Feature("flooded-1MiB")
 			}
